@@ -831,6 +831,20 @@ def impl_oauth(c):
 # ------------------------------------------------------------------------------------ domains
 
 WELL_FORMED_BRANCHES = ['development/7.4', 'stabilization/7.4.0', 'hotfix/10.0.3', 'development/07.04']
+DOT_SUBSTITUTES = ['/', '-', '_', '5', 'x', '']
+
+
+def dot_variants(name):
+    """every dot of an accepted shape replaced by another character (or dropped)"""
+    out = []
+    for i, ch in enumerate(name):
+        if ch == '.':
+            out.extend(name[:i] + sub + name[i + 1:] for sub in DOT_SUBSTITUTES)
+    return out
+
+
+DOT_REPLACED_BRANCHES = [v for n in ('development/7.4', 'stabilization/7.4.0', 'hotfix/10.0.3') for v in dot_variants(n)]
+DOT_REPLACED_FROM = dot_variants('development/7.4')
 ILL_FORMED_BRANCHES = {
     'wrong-prefix': ['feature/7.4', 'devel/7.4', 'Development/7.4', 'development7.4', 'xdevelopment/7.4',
                      'release/7.4', 'user/x', 'q/7.4', 'w/7.4/feature/x'],
@@ -842,6 +856,7 @@ ILL_FORMED_BRANCHES = {
                            'development/ 7.4', 'development/7.4 ', ' development/7.4', 'development/0x7.4'],
     'trailing-newline': ['development/7.4\n', 'development/7.4\n\n', 'hotfix/1.2.3\n', '\n', '\ndevelopment/7.4',
                          'development/7.4\r', 'development/7.4\r\n', 'development/\n7.4', 'development/7.4%0A'],
+    'dot-replaced': DOT_REPLACED_BRANCHES,
     'extra-path-segments': ['development/7.4/', 'development/7.4/extra', 'x/development/7.4', 'development//7.4',
                             '/development/7.4', '//development/7.4', '///development/7.4', 'development/7.4//',
                             '/', '//', '', '..', 'development/../development/7.4', 'development/7.4?x=1',
@@ -874,7 +889,8 @@ BODIES = [
     ('json', '{"branch": "evil", "pr_id": -5}', 'body:colliding-keys'),
 ] + [('json', json.dumps({'branch_from': v}), _from_class(v)) for v in
      ['abc123', '', 'ABCDEF0123456789', 'development/7.4', 'development/7', 'stabilization/7.4.0', 'xyz',
-      'abc\n', '\n', 'development/7.4\n', 'abc\n\n', 'abc def', 'abc\r', 5, None, [1], True]]
+      'abc\n', '\n', 'development/7.4\n', 'abc\n\n', 'abc def', 'abc\r', 5, None, [1], True]] + \
+    [('json', json.dumps({'branch_from': v}), 'branch_from:dot-replaced') for v in DOT_REPLACED_FROM]
 BODY_PARAMS = {'CPath': ['development/7.4', 'development/7.x', 'development/7.4\n'], 'CInt': ['1', '0', 'abc'],
                'CString': ['x'], None: [None]}
 
@@ -927,8 +943,10 @@ FORM_FIELDS = {
                          for b in ['development/7.4', 'stabilization/7.4.0', 'hotfix/10.0.3', 'feature/7.4',
                                    'development/7', 'development/7.4.1', 'development/7.x', 'development/7.4\n',
                                    '/development/7.4', 'development/7.4/', '', '   ', None]
-                         for f in ['', 'abc123', 'development/7.4', 'xyz', 'abc\n', None]],
-    'DeleteBranchForm': [dict(branch=b) for b in
+                         for f in ['', 'abc123', 'development/7.4', 'xyz', 'abc\n', None]]
+    + [dict(branch=b, branch_from='') for b in DOT_REPLACED_BRANCHES]
+    + [dict(branch='development/7.4', branch_from=f) for f in DOT_REPLACED_FROM],
+    'DeleteBranchForm': [dict(branch=b) for b in DOT_REPLACED_BRANCHES] + [dict(branch=b) for b in
                          ['development/7.4', 'stabilization/7.4.0', 'hotfix/10.0.3', 'feature/7.4', 'development/7',
                           'development/7.4.1', 'development/7.x', 'development/7.4\n', '/development/7.4',
                           'development/7.4/', '', '   ', None]],
@@ -1062,6 +1080,9 @@ def name_domain(extra_alphabet=''):
         names |= _edits(b, alphabet)
     for l in ILL_FORMED_BRANCHES.values():
         names.update(l)
+    names.update(DOT_REPLACED_FROM)
+    for b in WELL_FORMED_BRANCHES + ['stabilization/10.20.30', 'hotfix/1.2.3']:
+        names.update(dot_variants(b))
     names.update(v for v in (json.loads(b[1]).get('branch_from') for b in BODIES
                              if b[0] == 'json' and b[1].startswith('{"branch_from"')) if isinstance(v, str))
     return sorted(names)
@@ -1333,6 +1354,10 @@ def _run_cells(ctx, facts, known, cells):
             # the grammar of the specification is exactly what the regular expression accepts
             if impl != s:
                 ctx.mismatch(c, impl, s, 'grammar of Spec/C14Spec.v against the regular expression')
+            if impl == '1' and s == '0':
+                ctx.violation(c, 'no match: the name is outside the grammar of well-formed %s'
+                              % ('branch names' if c['which'] == 'branch' else 'branching points'),
+                              'match', 'validator-regex-accepts-ill-formed-name')
         elif impl != ans:
             ctx.mismatch(c, impl, ans, 'validate_endpoint_data' if c['kind'] == 'validate' else 'int()')
     for v, (c, impl) in zip(ctx.model.batch_parallel(mon_lines) if mon_lines else [], mon_cells):
